@@ -110,6 +110,11 @@ func (n *lazyNode) intoDoc() (*partialDoc, error) {
 		return nil, err
 	}
 
+	if n.doc == nil {
+		// the raw value was null: not an object
+		return nil, ErrInvalid
+	}
+
 	n.which = eDoc
 	return &n.doc, nil
 }
